@@ -126,6 +126,12 @@ class _Helper:
         self.loads = {n.id for n in _all_nodes(node) if isinstance(n, ast.Name) and isinstance(n.ctx, ast.Load)}
         self.single_expr = (len(self.body) == 1 and isinstance(self.body[0], ast.Return)
                             and self.body[0].value is not None)
+        # names the helper's own closures (lambdas, nested functions, comprehensions aside) capture:
+        # each call has its own cell for them, so an inlined copy needs its own variable
+        self.captured = set()
+        for n in _all_nodes(node):
+            if n is not node and isinstance(n, (ast.Lambda, ast.FunctionDef, ast.AsyncFunctionDef)):
+                self.captured.update(x.id for x in ast.walk(n) if isinstance(x, ast.Name))
 
 
 def _eligible(node):
@@ -263,7 +269,7 @@ class _Subst(ast.NodeTransformer):
         return node
 
 
-def _bind(helper, call, caller_names, uid, pairs=None, arg_uses=None):
+def _bind(helper, call, caller_names, uid, pairs=None, arg_uses=None, stable=()):
     """-> (prelude statements, mapping, rename)"""
     if any(isinstance(a, ast.Starred) for a in call.args) or any(k.arg is None for k in call.keywords):
         raise NotInlinable('star args')
@@ -289,7 +295,18 @@ def _bind(helper, call, caller_names, uid, pairs=None, arg_uses=None):
             uses[n.id] = uses.get(n.id, 0) + 1
     for p in helper.params:
         a = actual[p]
-        if p not in helper.stored and (_is_simple(a) or uses.get(p, 0) == 0):
+        if p in helper.captured and isinstance(a, ast.Name) and a.id in stable and p not in helper.stored:
+            # bound once in the caller (a parameter, a single assignment): a closure reading it
+            # late sees the same value as one reading the helper's own parameter
+            mapping[p] = a
+        elif p in helper.captured and not isinstance(a, ast.Constant):
+            _FRESH[0] += 1
+            new = '%s%s_c%d' % (p, sfx, _FRESH[0])
+            rename[p] = new
+            prelude.append(ast.copy_location(
+                ast.Assign(targets=[ast.Name(id=new, ctx=ast.Store())], value=copy.deepcopy(a), lineno=call.lineno),
+                call))
+        elif p not in helper.stored and (_is_simple(a) or uses.get(p, 0) == 0):
             mapping[p] = a
         elif p not in helper.stored and uses.get(p, 0) == 1 and helper.single_expr \
                 and sum(1 for q in helper.params if not _is_simple(actual[q])) == 1:
@@ -316,9 +333,32 @@ def _bind(helper, call, caller_names, uid, pairs=None, arg_uses=None):
     for n in helper.stored:
         if n in helper.params or n == helper.receiver:
             continue
-        if n in caller_names:
+        if n in helper.captured:
+            _FRESH[0] += 1
+            rename[n] = '%s%s_c%d' % (n, sfx, _FRESH[0])
+        elif n in caller_names:
             rename[n] = n + sfx
     return prelude, mapping, rename
+
+
+_FRESH = [0]
+
+
+def _stable_names(func):
+    """names bound at most once anywhere in ``func`` (nested scopes included, parameters count as
+    a binding)"""
+    n = {}
+    for x in ast.walk(func):
+        if isinstance(x, ast.Name) and isinstance(x.ctx, (ast.Store, ast.Del)):
+            n[x.id] = n.get(x.id, 0) + 1
+        elif isinstance(x, ast.arg):
+            n[x.arg] = n.get(x.arg, 0) + 1
+        elif isinstance(x, ast.ExceptHandler) and x.name:
+            n[x.name] = n.get(x.name, 0) + 1
+        elif isinstance(x, (ast.Global, ast.Nonlocal)):
+            for nm in x.names:
+                n[nm] = n.get(nm, 0) + 2
+    return {k for k, v in n.items() if v <= 1}
 
 
 def _terminates(body):
@@ -379,7 +419,20 @@ def _tail_convert(stmts, k):
             if _has_return(st.finalbody):
                 raise NotInlinable('return in finally')
             if rest and not _terminates([st]):
-                raise NotInlinable('return in a try that falls through')
+                # ``try: B / except E: return`` followed by more statements: when every handler
+                # leaves and B itself does not return, what follows runs exactly when B completed
+                # -- it is the else clause (exceptions of the rest are not caught by the handlers
+                # either way)
+                if st.finalbody or _has_return(st.body) or not all(_terminates(h.body) for h in st.handlers):
+                    raise NotInlinable('return in a try that falls through')
+                new = ast.copy_location(ast.Try(body=list(st.body), handlers=[], orelse=[], finalbody=[]), st)
+                new.orelse = _tail_convert(list(st.orelse) + rest, k)
+                for h in st.handlers:
+                    nh = ast.copy_location(ast.ExceptHandler(type=h.type, name=h.name,
+                                                             body=_tail_convert(h.body, k) or [ast.copy_location(ast.Pass(), h)]), h)
+                    new.handlers.append(nh)
+                out.append(new)
+                return out
             new = ast.copy_location(ast.Try(body=list(st.body), handlers=[], orelse=[],
                                             finalbody=list(st.finalbody)), st)
             if st.orelse:
@@ -399,6 +452,53 @@ def _tail_convert(stmts, k):
             if rest and not _terminates([st]):
                 raise NotInlinable('return in a with block that falls through')
             new = ast.copy_location(ast.With(items=st.items, body=_tail_convert(st.body, k)), st)
+            out.append(new)
+            return out
+        if isinstance(st, (ast.For, ast.While)) and _has_return([st]):
+            # ``loop: ... return e ...`` followed by a tail: leaving the loop by return skips the
+            # tail, which is what break does to an else clause -- each return becomes k(e) + break
+            # and the tail becomes the loop's else.  Only when the loop has no else and no break of
+            # its own, and the returns are not inside a nested loop / try-finally.
+            rest = stmts[i + 1:]
+            if st.orelse:
+                raise NotInlinable('return inside a loop with an else clause')
+            new = copy.deepcopy(st)
+
+            def conv(body):
+                out2 = []
+                for s2 in body:
+                    if isinstance(s2, ast.Return):
+                        ks = k(s2.value, s2)
+                        out2.extend(ks)
+                        if not (ks and isinstance(ks[-1], (ast.Return, ast.Raise))):
+                            out2.append(ast.copy_location(ast.Break(), s2))
+                        return out2
+                    if isinstance(s2, ast.Break):
+                        raise NotInlinable('return inside a loop that also breaks')
+                    if isinstance(s2, (ast.For, ast.While)):
+                        if _has_return([s2]):
+                            raise NotInlinable('return inside a nested loop')
+                        out2.append(s2)
+                        continue
+                    if isinstance(s2, (ast.FunctionDef, ast.AsyncFunctionDef, ast.ClassDef)):
+                        out2.append(s2)
+                        continue
+                    if isinstance(s2, ast.If):
+                        s2.body = conv(s2.body) or [ast.copy_location(ast.Pass(), s2)]
+                        s2.orelse = conv(s2.orelse)
+                    elif isinstance(s2, ast.Try):
+                        if _has_return([s2]) and s2.finalbody:
+                            raise NotInlinable('return inside try-finally inside a loop')
+                        s2.body = conv(s2.body)
+                        s2.orelse = conv(s2.orelse)
+                        for h in s2.handlers:
+                            h.body = conv(h.body) or [ast.copy_location(ast.Pass(), h)]
+                    elif isinstance(s2, ast.With):
+                        s2.body = conv(s2.body)
+                    out2.append(s2)
+                return out2
+            new.body = conv(new.body)
+            new.orelse = _tail_convert(rest, k)
             out.append(new)
             return out
         if not isinstance(st, (ast.FunctionDef, ast.AsyncFunctionDef, ast.ClassDef)) and _has_return([st]):
@@ -452,7 +552,7 @@ class _ExprInliner(ast.NodeTransformer):
         if h is None or not h.single_expr:
             return node
         try:
-            prelude, mapping, rename = _bind(h, node, names, 0)
+            prelude, mapping, rename = _bind(h, node, names, 0, stable=_stable_names(func))
         except NotInlinable:
             return node
         if prelude:
@@ -522,7 +622,7 @@ def _inline_in_function(func, cls, qual, helpers_by_name):
                 for n in ast.walk(a_):
                     if isinstance(n, ast.Name):
                         arg_uses[n.id] = arg_uses.get(n.id, 0) + 1
-            prelude, mapping, rename = _bind(h, call, names, uid[0] if uid[0] > 1 else 0, pairs, arg_uses)
+            prelude, mapping, rename = _bind(h, call, names, uid[0] if uid[0] > 1 else 0, pairs, arg_uses, stable=_stable_names(func))
             free = h.loads - h.stored - set(h.params)
             for r, x in pairs.items():
                 if rename.get(r) == x:
@@ -671,6 +771,7 @@ def inline_new_helpers(tree, short, baseline=None):
     if baseline is None:
         baseline = load_baseline()
     log = []
+    _FRESH[0] = 0
     for _ in range(MAX_DEPTH):
         helpers, funcs = _collect(tree, short, baseline)
         if not helpers:
